@@ -20,9 +20,9 @@ NoProg == [carrier |-> "", wrapper |-> "", renamed |-> FALSE, bkind |-> "", ovr 
 \* ovr: the referencing field carries a #[typeshare(<lang>(type = ".."))] override for ANOTHER language than the
 \* generated one ("scala" / "typescript"); the reference is still written in the generated language, so P still orders it
 \* bname: how B is spelled - UpperCamel, a C-style lower_snake name (handle_t), or with a leading underscore; the order
-\* constraint does not depend on the spelling of a name
+\* constraint does not depend on the spelling of a name - nor on how B's name relates to A's (a prefix of it, an extension of it: names that sort next to each other)
 Progs == {p \in [carrier : Carriers, wrapper : Wrappers, renamed : BOOLEAN, bkind : BKinds, ovr : {"none", "scala", "typescript"},
-                 bname : {"upper", "lower_snake", "underscore"}, twin : BOOLEAN] :
+                 bname : {"upper", "lower_snake", "underscore", "prefix_of_a", "extends_a"}, twin : BOOLEAN] :
              \* twin: two more, unreferenced items that share ONE Rust identifier (the second in a module of its own, told apart by
              \* serde(rename)): the emitted definitions are a permutation of ALL parsed items - neither twin may be dropped
              /\ p.twin => (p.bkind = "struct" /\ p.bname = "upper" /\ p.ovr = "none" /\ ~p.renamed)
